@@ -20,7 +20,7 @@ var purePkgs = []string{
 	"strconv", "path", "path/filepath", "fmt", "strings", "bytes", "math", "errors", "unicode", "unicode/utf8",
 	"encoding/hex", "encoding/binary", "github.com/pingcap/errors", "github.com/pkg/errors", "net/url", "regexp", "math/bits",
 	"github.com/coreos/go-semver/semver", "github.com/gogo/protobuf/proto", "github.com/golang/protobuf/proto", "reflect", "encoding/json",
-	"github.com/docker/go-units", "context", "go.etcd.io/etcd/clientv3", "go.etcd.io/etcd/etcdserver/etcdserverpb", "go.etcd.io/etcd/mvcc/mvccpb",
+	"github.com/docker/go-units", "context", "google.golang.org/grpc/status", "google.golang.org/grpc/codes", "go.etcd.io/etcd/clientv3", "go.etcd.io/etcd/etcdserver/etcdserverpb", "go.etcd.io/etcd/mvcc/mvccpb",
 }
 
 // results of these are arbitrary (not functions of the arguments) but the heap is untouched.
@@ -61,10 +61,17 @@ func (s *Session) call(fr *Frame, cc *ssa.CallCommon, st *State, instr *ssa.Call
 	for i, a := range cc.Args {
 		args[i] = s.valueOf(fr, a)
 	}
-	resT := cc.Signature().Results()
 	if fr.top && fr.contract != nil && len(fr.contract.Ats) > 0 {
-		s.callSiteAsserts(fr, cc, st, instr)
+		s.callSiteAsserts(fr, cc, st, instr, nil)
+		res := s.call2(fr, cc, args, st, instr)
+		s.callSiteAsserts(fr, cc, st, instr, &res)
+		return res
 	}
+	return s.call2(fr, cc, args, st, instr)
+}
+
+func (s *Session) call2(fr *Frame, cc *ssa.CallCommon, args []Val, st *State, instr *ssa.Call) Val {
+	resT := cc.Signature().Results()
 	if cc.IsInvoke() {
 		recv := s.valueOf(fr, cc.Value)
 		return s.invoke(fr, cc, recv, args, st)
@@ -139,6 +146,11 @@ func (s *Session) staticCall(fr *Frame, fn *ssa.Function, bindings []Val, args [
 	}
 	pk, key := s.funcKey(fn)
 	opaque := s.eng.db.Opaque[pk+"::"+key]
+	if s.eng.db.Havoc[pk+"::"+key] {
+		s.note("call to %s declared `havoc`: whole heap forgotten, result arbitrary", name)
+		s.havocAll(st)
+		return s.freshResult(st, res, fn.Name())
+	}
 	inRepo := strings.HasPrefix(pkg, s.eng.modulePath)
 	if len(fn.Blocks) > 0 && !opaque && (inRepo || s.eng.db.Transp[pk+"::"+key]) {
 		rec := false
@@ -158,7 +170,7 @@ func (s *Session) staticCall(fr *Frame, fn *ssa.Function, bindings []Val, args [
 		s.havocAll(st)
 		return s.freshResult(st, res, fn.Name())
 	}
-	if strings.HasPrefix(pkg, "github.com/pingcap/kvproto") {
+	if strings.HasPrefix(pkg, "github.com/pingcap/kvproto") || pkg == "go.etcd.io/etcd/etcdserver/etcdserverpb" || pkg == "go.etcd.io/etcd/mvcc/mvccpb" {
 		if strings.HasPrefix(fn.Name(), "Get") && len(fn.Blocks) > 0 && fr.depth < maxInlineDepth+2 {
 			return s.inline(fr, fn, bindings, args, st)
 		}
@@ -214,7 +226,7 @@ func (s *Session) pureCall(fn *ssa.Function, args []Val, st *State) Val {
 	var vals []Val
 	for i := 0; i < res.Len(); i++ {
 		v := mk(res.At(i).Type(), i)
-		s.assume(s.rangeFacts(v))
+		s.assume(And(s.rangeFacts(v), s.refFacts(st, v)))
 		vals = append(vals, v)
 	}
 	// error constructors never return nil
@@ -795,6 +807,23 @@ func (s *Session) scanCall(fr *Frame, cc *ssa.CallCommon, mods map[string]string
 		}
 		return false
 	}
+	if strings.HasPrefix(name, "sync/atomic.Store") || strings.HasPrefix(name, "sync/atomic.Add") || strings.HasPrefix(name, "sync/atomic.CompareAndSwap") || name == "(*sync/atomic.Value).Store" {
+		k, tk, p, n, ok := staticLoc(cc.Args[0])
+		if !ok {
+			return true
+		}
+		tmp := map[string]string{}
+		if name == "(*sync/atomic.Value).Store" {
+			tmp[heapName(k, tk, p+".v")] = nestSort(SInt, 1+n)
+		} else {
+			addLeaves(tmp, k, tk, p, cc.Args[0].Type().Underlying().(*types.Pointer).Elem(), n)
+		}
+		for nm, sort := range tmp {
+			mods[nm] = sort
+			s.scanReal[nm] = true
+		}
+		return false
+	}
 	if _, ok := builtinModels[name]; ok {
 		return false
 	}
@@ -813,6 +842,9 @@ func (s *Session) scanCall(fr *Frame, cc *ssa.CallCommon, mods map[string]string
 	}
 	pk, key := s.funcKey(fn)
 	opaque := s.eng.db.Opaque[pk+"::"+key]
+	if s.eng.db.Havoc[pk+"::"+key] {
+		return true
+	}
 	if len(fn.Blocks) > 0 && !opaque && (strings.HasPrefix(pkg, s.eng.modulePath) || s.eng.db.Transp[pk+"::"+key]) {
 		if visited[fn] {
 			return false
@@ -833,6 +865,37 @@ func (s *Session) scanCall(fr *Frame, cc *ssa.CallCommon, mods map[string]string
 		return false
 	}
 	return true
+}
+
+func init() {
+	// sync/atomic on plain integers
+	for _, ty := range []string{"Int32", "Int64", "Uint32", "Uint64"} {
+		ty := ty
+		builtinModels["sync/atomic.Load"+ty] = func(s *Session, fr *Frame, fn *ssa.Function, args []Val, st *State) Val {
+			v := s.load(st, s.toLoc(args[0]))
+			s.assume(Imp(st.Reach, s.rangeFacts(v)))
+			return v
+		}
+		builtinModels["sync/atomic.Store"+ty] = func(s *Session, fr *Frame, fn *ssa.Function, args []Val, st *State) Val {
+			s.store(st, s.toLoc(args[0]), args[1])
+			return Val{}
+		}
+		builtinModels["sync/atomic.Add"+ty] = func(s *Session, fr *Frame, fn *ssa.Function, args []Val, st *State) Val {
+			loc := s.toLoc(args[0])
+			v := s.load(st, loc)
+			t := fn.Signature.Results().At(0).Type()
+			nv := scalar(t, s.define("aadd", s.wrap(Add(v.T0(), args[1].T0()), t)))
+			s.store(st, loc, nv)
+			return nv
+		}
+		builtinModels["sync/atomic.CompareAndSwap"+ty] = func(s *Session, fr *Frame, fn *ssa.Function, args []Val, st *State) Val {
+			loc := s.toLoc(args[0])
+			v := s.load(st, loc)
+			ok := s.define("cas", Eq(v.T0(), args[1].T0()))
+			s.store(st, loc, scalar(v.Typ, Ite(ok, args[2].T0(), v.T0())))
+			return scalar(types.Typ[types.Bool], ok)
+		}
+	}
 }
 
 // scanContractMods adds the heap families named by a contract's modifies clause (type-level resolution).
@@ -1017,7 +1080,7 @@ func calleeName(cc *ssa.CallCommon) string {
 }
 
 // callSiteAsserts: `at NAME K assert E` clauses, K = source-order ordinal of calls to NAME in this function.
-func (s *Session) callSiteAsserts(fr *Frame, cc *ssa.CallCommon, st *State, instr *ssa.Call) {
+func (s *Session) callSiteAsserts(fr *Frame, cc *ssa.CallCommon, st *State, instr *ssa.Call, after *Val) {
 	name := calleeName(cc)
 	if name == "" || instr == nil {
 		return
@@ -1041,7 +1104,28 @@ func (s *Session) callSiteAsserts(fr *Frame, cc *ssa.CallCommon, st *State, inst
 		}
 	}
 	k := fr.callSites[instr]
-	clauses := fr.contract.Ats[fmt.Sprintf("%s#%d", name, k)]
+	key := fmt.Sprintf("%s#%d", name, k)
+	phase := "assert"
+	if after != nil {
+		key += "!after"
+		phase = "after"
+		// bind the call's results as r0, r1, ... / result
+		saved := fr.env
+		fr.env = map[string]Val{}
+		for n, v := range saved {
+			fr.env[n] = v
+		}
+		if after.Tup != nil {
+			for i, v := range after.Tup {
+				fr.env[fmt.Sprintf("r%d", i)] = v
+			}
+		} else if after.L != nil || after.Loc != nil {
+			fr.env["r0"] = *after
+			fr.env["result"] = *after
+		}
+		defer func() { fr.env = saved }()
+	}
+	clauses := fr.contract.Ats[key]
 	if len(clauses) == 0 {
 		return
 	}
@@ -1055,7 +1139,7 @@ func (s *Session) callSiteAsserts(fr *Frame, cc *ssa.CallCommon, st *State, inst
 		subs := splitClause(cl)
 		for _, sub := range subs {
 			f := s.evalBoolClauseAt(fr, sub, st, instr.Block(), idx)
-			s.addObl(&Obligation{Name: fmt.Sprintf("%s/assert@%s#%d.%s", fr.oblPfx, name, k, clauseNameSplit(cl, i, sub, len(subs))), Kind: "assert", Func: fr.oblPfx, Src: "at call " + name + ": " + sub.Src, Guard: st.Reach, Formula: f})
+			s.addObl(&Obligation{Name: fmt.Sprintf("%s/%s@%s#%d.%s", fr.oblPfx, phase, name, k, clauseNameSplit(cl, i, sub, len(subs))), Kind: "assert", Func: fr.oblPfx, Src: "at call " + name + " (" + phase + "): " + sub.Src, Guard: st.Reach, Formula: f})
 			s.assume(Imp(st.Reach, f))
 		}
 	}
